@@ -226,6 +226,27 @@ func (s *RegScenario) Setup(k *sim.Kernel) {
 					default:
 						o.Out = "error:" + r.Err + ":" + r.ErrName
 					}
+				case "call":
+					// routing: a call of method X of the named interface is dispatched
+					// exactly if that name is registered at that moment
+					if !connect() {
+						continue
+					}
+					o.Call = sim.Rec("call.call", op.Name)
+					var out json.RawMessage
+					err := conn.Call(ctx, op.Name+".X", nil, &out)
+					var r e2eReply
+					describeClientErr(err, &r)
+					switch {
+					case err == nil:
+						o.Out = "replied"
+					case strings.HasPrefix(r.Err, "other"):
+						o.Failed, o.Out = true, r.Err
+						conn.Close()
+						conn = nil
+					default:
+						o.Out = r.Err + ":" + r.ErrField
+					}
 				case "ogetinfo", "ogetdesc":
 					onet, oaddr := splitAddr(s.Other.Address)
 					sim.Await(sim.Cond{Kind: sim.CondBound, S1: onet, S2: oaddr})
@@ -435,6 +456,21 @@ func (s *RegScenario) regModel() porcupine.Model {
 				names := append([]string{"org.varlink.service"}, tableNames(st.table)...)
 				want := mustJSON(append(append([]interface{}{}, ident...), names))
 				return out == want, st
+			case "call":
+				reg := map[string]bool{}
+				for _, n := range tableNames(st.table) {
+					reg[n] = true
+				}
+				switch rt := route(in.name+".X", reg); rt.kind {
+				case "badmethod":
+					return out == "InvalidParameter:method", st
+				case "noiface":
+					return out == "InterfaceNotFound:"+rt.iface, st
+				case "builtin":
+					return out == "MethodNotFound:X", st
+				default:
+					return out == "MethodNotImplemented:X", st
+				}
 			case "getdesc":
 				if in.name == "org.varlink.service" {
 					return strings.HasPrefix(out, "text:") && len(out) > 5, st
@@ -509,6 +545,10 @@ func (s *RegScenario) Check(k *sim.Kernel) []sim.Violation {
 		case "getdesc":
 			if !o.Failed {
 				hist = append(hist, porcupine.Operation{ClientId: o.Actor, Input: regInput{op: "getdesc", name: o.Name}, Call: int64(o.Call), Output: o.Out, Return: ret})
+			}
+		case "call":
+			if !o.Failed {
+				hist = append(hist, porcupine.Operation{ClientId: o.Actor, Input: regInput{op: "call", name: o.Name}, Call: int64(o.Call), Output: o.Out, Return: ret})
 			}
 		case "serve":
 			// Start: from the invocation of the serving call to its first Accept;
@@ -707,6 +747,10 @@ func (s *RegScenario) firstOddity(hist []porcupine.Operation) string {
 			if known && o != "text:"+d && o != "InvalidParameter:interface" {
 				return "getdesc-wrong-text"
 			}
+		case "call":
+			if _, known := okNames[in.name]; !known && in.name != "org.varlink.service" && strings.HasPrefix(o, "MethodNotImplemented") {
+				return "call-dispatched-to-unregistered"
+			}
 		case "getinfo":
 			var v []interface{}
 			json.Unmarshal([]byte(o), &v)
@@ -770,6 +814,23 @@ func init() {
 }
 
 var _ = time.Second
+
+// genRegRouting (C04): registration histories whose clients mostly make calls:
+// routing follows the registrations - a call is dispatched exactly if its
+// interface is registered at that moment, across serving rounds.
+func genRegRouting(seed uint64, tier string) *RegScenario {
+	s := genC13(seed^0xC04C04, tier).(*RegScenario)
+	s.Prop = "C04"
+	g := NewGen(seed, 0xC04B)
+	for a := 2; a < len(s.Actors); a++ {
+		for i := range s.Actors[a] {
+			if op := &s.Actors[a][i]; op.Op == "getdesc" && op.Name != "org.varlink.resolver" && g.Pct(70) {
+				op.Op = "call"
+			}
+		}
+	}
+	return s
+}
 
 func genC13(seed uint64, tier string) Scenario {
 	g := NewGen(seed, 0xC13)
@@ -889,7 +950,13 @@ func genC13(seed uint64, tier string) Scenario {
 					op.Wait = sf("ev:serve.call:%d,bound", r+1)
 					first = false
 				}
-				switch k := g.IntN(10); {
+				switch k := g.IntN(12); {
+				case k >= 10:
+					// (never the scripted resolver interface: it answers X itself)
+					op.Op, op.Name = "call", askable()
+					if op.Name == "org.varlink.resolver" {
+						op.Name = pool[g.IntN(len(pool))]
+					}
 				case k < 4:
 					op.Op = "getinfo"
 				case k < 8:
